@@ -30,6 +30,8 @@ def one(pid):
     meta = json.load(open(d + "/meta.json"))
     wt = os.path.join(base, pid)
     out = []
+    if meta.get("superseded"):
+        return pid, ["%s superseded by %s (no longer a violation on the current tree)" % (pid, meta["superseded"]["by"])]
     p = subprocess.run(["git", "-C", "/repo", "worktree", "add", "--detach", wt, "HEAD"], capture_output=True, text=True)
     if p.returncode != 0:
         return pid, ["worktree failed: " + p.stderr[-200:]]
